@@ -1,6 +1,6 @@
 (* Properties/C07.v — mode dispatch and map conversion are mutually consistent. *)
 From Coq Require Import String List Bool ZArith.
-From V Require Import Tables Convert TablesProofs.
+From V Require Import Tables Convert PerfConv TablesProofs.
 Import ListNotations.
 
 (* the decision trees regenerated from convert_ref / convert_mut agree with the specification
@@ -61,3 +61,15 @@ Example C07_example :
   run_tree nat unit (fun _ _ p => S p) convert_mut_tree convert_flags (mk_map Mania true 6) Taiko tt
   = Some (inr EAlready).
 Proof. split; vm_compute; reflexivity. Qed.
+
+(* Performance::try_mode / mode_or_ignore: the builder of the target mode starts from the converted
+   map and from exactly the settings and score specification the osu! builder held (same-named
+   fields, catch's aliases), nothing else is reset — tables regenerated from the three
+   `impl TryFrom<OsuPerformance>` on every run *)
+Theorem C07_try_mode_carries_now : perf_conv_ok = true.
+Proof. exact tables_perf_conv. Qed.
+Print Assumptions C07_try_mode_carries_now.
+Theorem C07_try_mode_carries_field : forall row dst src,
+  carries_ok row = true -> In (dst, src) row -> src = expected_source dst.
+Proof. exact carries_ok_field. Qed.
+Print Assumptions C07_try_mode_carries_field.
